@@ -46,8 +46,6 @@ def utils_IntMin (a : Int) (b : Int) : Option Int := do
   else
     pure b
 
--- NOT TRANSLATED: utils_IntMax (): no such function in the package
-
 /-- utils/funcs.go:185 -/
 def utils_GetHmsBySeconds (second : Int) : Option GoSem.HMS := do
   pure ({ Hour := (GoSem.u8 (Int.tdiv second 3600)), Minute := (GoSem.u8 (Int.tmod (Int.tdiv second 60) 60)), Second := (GoSem.u8 (Int.tmod second 60)) } : GoSem.HMS)
@@ -56,7 +54,14 @@ def utils_GetHmsBySeconds (second : Int) : Option GoSem.HMS := do
 def lib_GetTotalSeconds (hms : GoSem.HMS) : Option Int := do
   pure ((((hms).Hour * 3600) + ((hms).Minute * 60)) + (hms).Second)
 
--- NOT TRANSLATED: lib_IsValid (hms.go:55): type github.com/ilius/libgostarcal.HMSRange is outside the fragment
+/-- hms.go:39 -/
+def lib_GetFloatHour (hms : GoSem.HMS) : Option Rat := do
+  pure (((((hms).Hour : Int) : Rat) + ((((hms).Minute : Int) : Rat) / ((60 : Rat) / 1))) + ((((hms).Second : Int) : Rat) / ((3600 : Rat) / 1)))
+
+/-- hms.go:137 -/
+def lib_FloatHourToHMS (fh : Rat) : Option GoSem.HMS := do
+  let total := (GoSem.ftoi ((Rat.floor ((fh * ((3600 : Rat) / 1)) + ((1 : Rat) / 2)) : Int) : Rat))
+  pure ({ Hour := (GoSem.u8 (Int.tdiv total 3600)), Minute := (GoSem.u8 (Int.tmod (Int.tdiv total 60) 60)), Second := (GoSem.u8 (Int.tmod total 60)) } : GoSem.HMS)
 
 /-- cal_types/julian/julian.go:114 -/
 def julian_IsLeap (year : Int) : Option Bool := do
@@ -417,9 +422,16 @@ def indian_GetMonthLen (year : Int) (month : Int) : Option Int := do
 def hijri_IsLeap (year : Int) : Option Bool := do
   pure (decide ((← (utils_Mod ((year * 11) + 14) 30)) < 11))
 
--- NOT TRANSLATED: hijri_ToJd (cal_types/hijri/hijri.go:248): conversion to int
+/-- cal_types/hijri/hijri.go:248 -/
+def hijri_ToJd (date : GoSem.Date) : Option Int := do
+  pure (((((date).Day + (GoSem.ftoi ((Rat.ceil (((59 : Rat) / 2) * (((GoSem.u8 ((date).Month - 1)) : Int) : Rat)) : Int) : Rat))) + (((date).Year - 1) * 354)) + (← (utils_Div ((11 * (date).Year) + 3) 30))) + 1948440)
 
--- NOT TRANSLATED: hijri_JdTo (cal_types/hijri/hijri.go:262): conversion to int
+/-- cal_types/hijri/hijri.go:262 -/
+def hijri_JdTo (jd : Int) : Option GoSem.Date := do
+  let year ← (utils_Div ((30 * ((jd - 1) - 1948440)) + 10646) 10631)
+  let month := (GoSem.u8 (← (utils_IntMin 12 (GoSem.ftoi ((Rat.ceil (((((jd : Int) : Rat) + ((1 : Rat) / 2)) - (((← (hijri_ToJd (← (SrcExt.lib_NewDate year 1 1)))) : Int) : Rat)) / ((59 : Rat) / 2)) : Int) : Rat)))))
+  let day := (GoSem.u8 ((jd - (← (hijri_ToJd (← (SrcExt.lib_NewDate year month 1))))) + 1))
+  (SrcExt.lib_NewDate year month day)
 
 /-- cal_types/hijri/hijri.go:281 -/
 def hijri_GetMonthLen (year : Int) (month : Int) : Option Int := do
@@ -433,6 +445,6 @@ def hijri_GetMonthLen (year : Int) (month : Int) : Option Int := do
       pure 29
 
 /-- the functions translated on this run -/
-def translated : List String := ["utils_Mod", "utils_Div", "utils_Divmod", "utils_IntMin", "utils_GetHmsBySeconds", "lib_GetTotalSeconds", "julian_IsLeap", "julian_getYearDays", "julian_getMonthDayFromYdays", "julian_ToJd", "julian_JdTo", "julian_GetMonthLen", "jalali_IsLeap", "jalali_getMonthDayFromYdays", "jalali_ToJd", "jalali_JdTo", "jalali_GetMonthLen", "ethiopian_IsLeap", "ethiopian_ToJd", "ethiopian_JdTo", "ethiopian_GetMonthLen", "gprol_IsLeap", "gprol_ToJd", "gprol_JdTo", "gprol_GetMonthLen", "indian_IsLeap", "indian_ToJd", "indian_JdTo", "indian_GetMonthLen", "hijri_IsLeap", "hijri_GetMonthLen"]
+def translated : List String := ["utils_Mod", "utils_Div", "utils_Divmod", "utils_IntMin", "utils_GetHmsBySeconds", "lib_GetTotalSeconds", "lib_GetFloatHour", "lib_FloatHourToHMS", "julian_IsLeap", "julian_getYearDays", "julian_getMonthDayFromYdays", "julian_ToJd", "julian_JdTo", "julian_GetMonthLen", "jalali_IsLeap", "jalali_getMonthDayFromYdays", "jalali_ToJd", "jalali_JdTo", "jalali_GetMonthLen", "ethiopian_IsLeap", "ethiopian_ToJd", "ethiopian_JdTo", "ethiopian_GetMonthLen", "gprol_IsLeap", "gprol_ToJd", "gprol_JdTo", "gprol_GetMonthLen", "indian_IsLeap", "indian_ToJd", "indian_JdTo", "indian_GetMonthLen", "hijri_IsLeap", "hijri_ToJd", "hijri_JdTo", "hijri_GetMonthLen"]
 
 end Starcal.Gen.Src
